@@ -1433,9 +1433,8 @@ class SQLModel:
         )
         view_name = "order_rows_" + str(temp_id_source[0])
         temp_id_source[0] = temp_id_source[0] + 1
-        terms = None
-        if not using_was_None:
-            terms = {ci: None for ci in subusing}
+        # always name the columns: SELECT * would return whatever the source table physically holds
+        terms = {ci: None for ci in subusing}
         suffix: List[str] = []
         if len(order_node.order_columns) > 0:
             suffix = (
